@@ -233,7 +233,9 @@ func TimestampHandle(value, tz string) (int64, error) {
 	// pattern match first
 	unixTime, err := parseDatePattern(value, timezone)
 
-	if unixTime > 0 && err == nil {
+	// (also for instants at or before the epoch: the table's layouts are not
+	// a reason to hand such a stamp to the general parser, which misreads them)
+	if err == nil {
 		return unixTime, nil
 	}
 
